@@ -16,12 +16,16 @@
         the colon, is not matched); header end first -> none; otherwise NeedsMoreData.
      _get_client_hello: TLS-like from 3 bytes on; incomplete -> NeedsMoreData; complete -> SNI (if present).
      both are consulted only if some rule is set; without rules the decision is taken on the first segment.
+   HostNeedsWs = TRUE: the Host regex demands whitespace after the colon (finding A).  ReqLineNoWait = TRUE: a buffer
+   that does not yet contain "HTTP/" yields "no Host header" instead of NeedsMoreData (finding B).  Set to FALSE when
+   the code is repaired (B: wait while the buffer is an incomplete request line).
    Cases with via = "tls_hook" have no rules; an addon excludes the connection in the tls_clienthello hook
    (ClientHelloData.ignore_connection), the other passthrough mechanism of the code.
    After "pass"/"tcp" every buffered segment is relayed, then traffic flows both ways.  After "tls"/"http" the
    behaviour ends (the harness stops there).                                                              *)
 EXTENDS Mon_IgnoreHosts, TLC
-CONSTANTS Cases, PostC, PostS       \* PostC / PostS: payload the client / the server sends after the first flight
+CONSTANTS Cases, PostC, PostS,      \* PostC / PostS: payload the client / the server sends after the first flight
+          HostNeedsWs, ReqLineNoWait  \* named deviations of the code (findings_proposed/C19.md A and B); TRUE = as is
 VARIABLES idx, pos, segs, cls, posted, ended, mon, obs
 vars == <<idx, pos, segs, cls, posted, ended, mon, obs>>
 
@@ -40,8 +44,9 @@ Decide(C, n) ==
       ignSet == C.rules \in {"ign", "both"}
       alwSet == C.rules \in {"alw", "both"}
       tlsLike == "t2" \in ty
-      hostRes == IF "rl2" \notin ty THEN "none"
-                 ELSE IF "host" \in ty /\ C.syntax # "nows" THEN "found"
+      hostRes == IF "rl2" \notin ty
+                 THEN IF ~ReqLineNoWait /\ C.kind = "http" THEN "more" ELSE "none"
+                 ELSE IF "host" \in ty /\ (C.syntax # "nows" \/ ~HostNeedsWs) THEN "found"
                  ELSE IF "end" \in ty THEN "none" ELSE "more"
       helloRes == IF ~tlsLike THEN "none" ELSE IF "t4" \in ty THEN "found" ELSE "more"
       names == {C.ev.addr} \cup (IF hostRes = "found" \/ (helloRes = "found" /\ C.present) THEN {C.ev.cont} ELSE {})
